@@ -86,8 +86,9 @@ macro_rules! buf_get_impl {
 
 // https://en.wikipedia.org/wiki/Sign_extension
 fn sign_extend(val: u64, nbytes: usize) -> i64 {
-    let shift = (8 - nbytes) * 8;
-    (val << shift) as i64 >> shift
+    let shift = ((8 - nbytes) * 8) as u32;
+    // A zero-width integer has no bits, so shifting by the full width gives 0.
+    val.checked_shl(shift).map_or(0, |v| v as i64 >> shift)
 }
 
 /// Read bytes from a buffer.
